@@ -243,7 +243,7 @@ def gen_params(rng: Rng, now: int) -> dict:
     if rng.random() < 0.15 and "next" not in pd:
         pd["next"] = now + rng.choice([-S, 1, 300_000, 3 * S])    # back-off of a retried recurring/deferred job
     if rng.random() < 0.3:
-        pd["ttl"] = rng.choice([S, 2 * S, 5 * S, 3600 * S])
+        pd["ttl"] = rng.choice([S, 2 * S, 5 * S, 3600 * S, 0, 1])
     if rng.random() < 0.3:
         pd["max"] = rng.choice([1, 3])
         pd["tried"] = rng.choice([0, 1])
@@ -279,7 +279,7 @@ async def random_session(rng: Rng, n_ops: int, profile: str = "mixed") -> MemSes
             nid += 1
             pd = gen_params(rng, CLOCK.us)
             if profile == "ttl" and rng.random() < 0.6:
-                pd["ttl"] = rng.choice([S, S, 2 * S, 5 * S])
+                pd["ttl"] = rng.choice([S, S, 2 * S, 5 * S, 0])
             await s.enqueue(q, f"m{nid}", rng.choice(topics_pool), f"p{nid}", pd)
         elif r < 0.42:
             s.advance(rng.choice([0, 1, 999, 1000, 500_000, S - 1001, S - 1, S, S + 1, 2 * S, 5 * S, 3600 * S]))
